@@ -180,6 +180,8 @@ def run_world(case, sdk, checks):
             continue
         if k == "na":
             continue
+        if o.get("untyped") and ({"cond", "lifecycle", "map", "observe"} & set(checks)):
+            w.flag(i, "error-type", "the %s error reached the caller as the library's internal error, not as the SDK's exception type (errors.As fails)" % o.get("err"), op=name)
         data_op = name in ("put", "update", "delete", "get", "query", "pages", "batchWrite", "batchGet", "transactWrite")
         if not w.failure and data_op and "failure" in checks and (expected_err(o, "InternalServerError") or expected_err(o, "ForcedFailure")):
             w.flag(i, "failure-after-deactivation", "no failure condition is active, yet the data operation returned the emulated error %s" % json.dumps(o)[:80])
@@ -333,6 +335,10 @@ def run_world(case, sdk, checks):
                         for kn, kv in op["keyItem"]:
                             if item_get(res, kn) is MISSING:
                                 w.flag(i, "upsert-lost-key-attr", "UpdateItem on an absent key did not create the item from the key attributes", impl=o)
+                if sdk == "v2" and key in t.items:
+                    # the v2 client hands an empty binary, list, map or set back as NULL (a listed finding about what is
+                    # *returned*); what is stored keeps its value, and the next state is what is stored
+                    res = restore_empties(t.items[key], res)
                 t.items[key] = res
             elif "native" in checks and w.native and k in ("err", "panicErr") and (o.get("err") or o.get("panicErr")) == "Unsupported" \
                     and (op["table"], norm_ws(hx(op.get("expr", "")))) in w.updaters:
@@ -554,6 +560,28 @@ def canon_json_av(av):
     if t in ("SS", "NS", "BS"):
         return {t: sorted(av[t])}
     return av
+
+
+def is_empty_av(av):
+    t = tag(av)
+    return (t in ("B",) and av[t] == "") or (t in ("L", "M", "SS", "NS", "BS") and len(av[t]) == 0)
+
+
+def restore_av(old, new):
+    if new == {"NULL": True} and is_empty_av(old):
+        return old
+    to, tn = tag(old), tag(new)
+    if to == tn == "L" and len(old["L"]) == len(new["L"]):
+        return {"L": [restore_av(a, b) for a, b in zip(old["L"], new["L"])]}
+    if to == tn == "M":
+        o = {k: v for k, v in old["M"]}
+        return {"M": [[k, restore_av(o[k], v) if k in o else v] for k, v in new["M"]]}
+    return new
+
+
+def restore_empties(old_item, new_item):
+    o = {k: v for k, v in old_item}
+    return [[k, restore_av(o[k], v) if k in o else v] for k, v in new_item]
 
 
 def out_norm(item, sdk):
